@@ -193,6 +193,13 @@ impl<'a, 'b, Version, Purpose> GenericParser<'a, 'b, Version, Purpose> {
       }
     }
 
+    //validators that were registered without an accompanying claim (extend_validation_claims) must run too
+    for (key, validator) in &self.claim_validators {
+      if !self.claims.contains_key(key) {
+        validator(key, &json[key])?;
+      }
+    }
+
     Ok(json)
   }
 }
